@@ -185,7 +185,10 @@ fn main() {
             first + alt
         };
         let nprods = grammar.prods.len();
-        let fallible: Vec<bool> = (0..nprods).map(|_| r.chance(1, 5)).collect();
+        // synthesized start productions (`__N = N`) have an internal, infallible action
+        let fallible: Vec<bool> = (0..nprods)
+            .map(|p| r.chance(1, 5) && !grammar.nonterminals[grammar.prods[p].0].starts_with("__"))
+            .collect();
         let text_td = render_actions(&cfg, "", &prod_index, &fallible);
         let td = match generate_parser(&gen_dir, "g", &text_td, |_| {}) {
             Ok(t) => t,
